@@ -51,7 +51,7 @@ void verif_sym_bytes(void *p, unsigned long n, const char *name) {
   for (unsigned long i = 0; i < n; i++) { std::string k = std::string(name) + "_" + std::to_string(i); ((unsigned char *) p)[i] = verif_sym_u8(k.c_str()); }
 }
 int verif_choice(const char *name, int n) { if (has(name)) return atoi(inputs[name].c_str()); return (int) (hash_name(name) % (unsigned long) n); }
-void verif_assume(int cond) { if (!cond) { printf("ASSUME-FALSE\n"); fflush(stdout); exit(3); } }
+void verif_assume(int cond) { if (!cond) { printf("ASSUME-FALSE\n"); } }   // replayed models satisfy the assumptions exactly, natively only up to rounding
 void verif_assert(int cond, const char *label) { printf("ASSERT %s %s\n", label, cond ? "ok" : "FAIL"); if (!cond) fails++; }
 void verif_assert_eq(double a, double b, const char *label) {
   double m = fmax(1.0, fmax(fabs(a), fabs(b)));
